@@ -71,7 +71,8 @@ def convert(a, rep):
 
 
 def make_context(sc, rep='f64', condition='clean', masked_array_mask=False,
-                 drop_mask=False):
+                 drop_mask=False, masked_error=None, coverage_mask=False,
+                 mask_view=False):
     """Build the caller-owned objects.  ``condition`` injects negatives /
     non-finite values for C10 (C15 uses 'clean')."""
     import astropy.units as u
@@ -121,6 +122,29 @@ def make_context(sc, rep='f64', condition='clean', masked_array_mask=False,
     X.m = mask if mask.any() or condition != 'clean' else None
     if drop_mask:
         X.m = None     # non-finite data reach the mask=None clean-up branches
+    if mask_view and X.m is not None:
+        # the caller's mask is a view of a larger array
+        bigm = np.zeros((ny + 2, nx + 3), bool)
+        bigm[1:-1, 2:-1] = X.m
+        X.m = bigm[1:-1, 2:-1]
+        X.parents.append(bigm)
+    if masked_error is not None:
+        # error supplied as a MaskedArray: with a real mask that differs from
+        # ``mask`` ('mask'), or with nomask and a NaN value ('nan')
+        ev = np.asarray(getattr(X.e, 'value', X.e), float).copy()
+        if masked_error == 'mask':
+            em = np.zeros((ny, nx), bool)
+            em[rng.integers(0, ny, 5), rng.integers(0, nx, 5)] = True
+            em[int(stars[0][1]) + 2, int(stars[0][0]) - 2] = True
+            X.e = np.ma.MaskedArray(ev, mask=em)
+        else:
+            ev[int(stars[0][1]) + 2, int(stars[0][0]) - 2] = np.nan
+            X.e = np.ma.MaskedArray(ev)
+    X.cov = None
+    if coverage_mask:
+        X.cov = np.zeros((ny, nx), bool)
+        X.cov[:, :3] = True
+        X.cov[:2, :] = True
     X.img = img
     X.shape = (ny, nx)
     X.thr = (sc['pedestal'] + 40)
@@ -215,7 +239,8 @@ def _entries():
         X.aper.to_mask()[0].get_values(np.asarray(getattr(X.d, 'value', X.d)),
                                        mask=X.m)]
     E['Background2D'] = lambda X: Background2D(
-        X.d, (11, 13), mask=X.m, filter_size=3, exclude_percentile=30.0)
+        X.d, (11, 13), mask=X.m, coverage_mask=X.cov, filter_size=3,
+        exclude_percentile=30.0)
     E['LocalBackground'] = lambda X: LocalBackground(5, 9)(
         np.asarray(getattr(X.d, 'value', X.d)), X.xy[0], X.xy[1], mask=X.m)
     E['background_estimators'] = lambda X: (
